@@ -30,6 +30,7 @@ var LibraryPackages = []string{
 
 // Program is the loaded, type-checked program.
 type Program struct {
+	Mod   string
 	Dir   string
 	Fset  *token.FileSet
 	Pkgs  []*packages.Package // module packages only (non-test variants)
@@ -43,10 +44,14 @@ type Program struct {
 	edges   map[*ssa.Function][]*ssa.Function // in-module call edges (resolved) + parent→closure
 	callers map[*ssa.Function][]*callgraph.Edge
 	byName  map[string]*ssa.Function
+	siteCallees map[ssa.CallInstruction][]*ssa.Function
 }
 
 // Options configures loading.
 type Options struct {
+	// Module overrides the module path prefix (default: the go-ucan module); when set, the
+	// library package presence check is skipped (used for canary packages).
+	Module string
 	Dir   string
 	Tags  string
 	GOARCH string
@@ -74,9 +79,13 @@ func Load(opt Options) (*Program, error) {
 	if len(pkgs) == 0 {
 		return nil, fmt.Errorf("no packages loaded from %s", opt.Dir)
 	}
+	mod := Module
+	if opt.Module != "" {
+		mod = opt.Module
+	}
 	var errs []string
 	packages.Visit(pkgs, nil, func(p *packages.Package) {
-		if !strings.HasPrefix(p.PkgPath, Module) {
+		if !strings.HasPrefix(p.PkgPath, mod) {
 			return
 		}
 		for _, e := range p.Errors {
@@ -86,17 +95,19 @@ func Load(opt Options) (*Program, error) {
 	if len(errs) > 0 {
 		return nil, fmt.Errorf("type-check errors in module:\n  %s", strings.Join(errs, "\n  "))
 	}
-	p := &Program{Dir: opt.Dir, Fset: pkgs[0].Fset, All: pkgs}
+	p := &Program{Mod: mod, Dir: opt.Dir, Fset: pkgs[0].Fset, All: pkgs}
 	have := map[string]bool{}
 	for _, pk := range pkgs {
-		if strings.HasPrefix(pk.PkgPath, Module) {
+		if strings.HasPrefix(pk.PkgPath, mod) {
 			p.Pkgs = append(p.Pkgs, pk)
-			have[strings.TrimPrefix(strings.TrimPrefix(pk.PkgPath, Module), "/")] = true
+			have[strings.TrimPrefix(strings.TrimPrefix(pk.PkgPath, mod), "/")] = true
 		}
 	}
-	for _, lp := range LibraryPackages {
-		if !have[lp] {
-			return nil, fmt.Errorf("library package %s/%s not loaded", Module, lp)
+	if opt.Module == "" {
+		for _, lp := range LibraryPackages {
+			if !have[lp] {
+				return nil, fmt.Errorf("library package %s/%s not loaded", Module, lp)
+			}
 		}
 	}
 	prog, ssapkgs := ssautil.AllPackages(pkgs, ssa.InstantiateGenerics)
@@ -128,13 +139,13 @@ func Load(opt Options) (*Program, error) {
 func (p *Program) isInModule(f *ssa.Function) bool {
 	for g := f; g != nil; g = g.Parent() {
 		if g.Pkg != nil {
-			return strings.HasPrefix(g.Pkg.Pkg.Path(), Module)
+			return strings.HasPrefix(g.Pkg.Pkg.Path(), p.Mod)
 		}
 		if o := g.Origin(); o != nil && o.Pkg != nil {
-			return strings.HasPrefix(o.Pkg.Pkg.Path(), Module)
+			return strings.HasPrefix(o.Pkg.Pkg.Path(), p.Mod)
 		}
 		if g.Object() != nil && g.Object().Pkg() != nil {
-			return strings.HasPrefix(g.Object().Pkg().Path(), Module)
+			return strings.HasPrefix(g.Object().Pkg().Path(), p.Mod)
 		}
 	}
 	return false
@@ -355,4 +366,35 @@ func (p *Program) ExportedAPI() []*ssa.Function {
 	}
 	sort.Slice(out, func(i, j int) bool { return ShortName(out[i]) < ShortName(out[j]) })
 	return out
+}
+
+// CalleesAt resolves the in-module callees of one call instruction: the static callee, or the
+// call-graph (VTA) targets for interface invokes and function values.
+func (p *Program) CalleesAt(site ssa.CallInstruction) []*ssa.Function {
+	cc := site.Common()
+	if !cc.IsInvoke() {
+		switch v := cc.Value.(type) {
+		case *ssa.Function:
+			if p.inMod[v] {
+				return []*ssa.Function{v}
+			}
+			return nil
+		case *ssa.MakeClosure:
+			return []*ssa.Function{v.Fn.(*ssa.Function)}
+		case *ssa.Builtin:
+			return nil
+		}
+	}
+	p.CallGraph()
+	if p.siteCallees == nil {
+		p.siteCallees = map[ssa.CallInstruction][]*ssa.Function{}
+		for _, n := range p.cg.Nodes {
+			for _, e := range n.Out {
+				if e.Site != nil && e.Callee.Func != nil && p.inMod[e.Callee.Func] {
+					p.siteCallees[e.Site] = append(p.siteCallees[e.Site], e.Callee.Func)
+				}
+			}
+		}
+	}
+	return p.siteCallees[site]
 }
